@@ -465,6 +465,16 @@ fn run_history<T: Val>(ops: &[Op<T>]) -> HistResult {
                     _ => fails.push(format!("{}: set[{i}] gave {:?}, reference {:?}", descr(k + 1), a.as_ref().ok(), r)),
                 }
                 hist.push(if a.is_ok() { "index:value" } else { "index:panic" });
+                // `IndexMut`: writing back an equal value keeps the documented requirement (values are not
+                // changed with respect to Hash/Eq) and must leave every answer as it was
+                if let (Ok(x), true) = (&a, k % 3 == 0) {
+                    let lm = sets[*h].as_mut().unwrap();
+                    lm.set[*i] = x.clone();
+                    hist.push("index_mut:write-back");
+                    if lm.set.try_get_id(x) != Some(*i) || lm.set[*i] != *x {
+                        fails.push(format!("{}: after `set[{i}] = set[{i}].clone()` the value is no longer found under id {i}", descr(k + 1)));
+                    }
+                }
                 match a {
                     Ok(x) => format!("v{}", x.token()),
                     Err(_) => "panic".into(),
@@ -485,6 +495,12 @@ fn run_history<T: Val>(ops: &[Op<T>]) -> HistResult {
                 let b: Vec<T> = (&l.set).into_iter().cloned().collect();
                 if a != l.r.vec || b != l.r.vec {
                     fails.push(format!("{}: iter gave {:?}, reference {:?}", descr(k + 1), a, l.r.vec));
+                }
+                // `Debug` goes through `iter()` as well
+                let dbg = format!("{:?}", l.set);
+                let want = format!("{{{}}}", l.r.vec.iter().map(|x| format!("{x:?}")).collect::<Vec<_>>().join(", "));
+                if dbg != want {
+                    fails.push(format!("{}: Debug gave {dbg}, reference {want}", descr(k + 1)));
                 }
                 hist.push("iter");
                 list_token(a.into_iter())
